@@ -16,7 +16,7 @@ CHECK = dict(
                  "pairs (A, B) whose effects do not differ on the chosen state are discarded and counted"],
     overlay={"quick": "plain", "thorough": "asan"},
     crash_is_violation=True,
-    timeout={"quick": 900, "thorough": 6000},
+    timeout={"quick": 1500, "thorough": 6000},
     technique="runtime monitoring: history (run, write, run) on one jitter vs fresh single-step execution of the patched image",
 )
 
